@@ -380,3 +380,135 @@ def hang_violation(acc, prop, zid, h, case=None):
     acc.violation("%s/no-termination/%s" % (prop, zid),
                   "library call did not return within %d s of CPU time (normally milliseconds); innermost library frame %s" % (h.seconds, site),
                   {"zone": zid, "stack": stack, "case": case})
+
+
+# ---- user-defined zones with a known reference (shared by C04 and C05) ------------------------------
+#
+# Each zone is described in the decoder's own dict form (stored periods + optional yearly-rule tail), so that
+# tzrules.expected_intervals is its reference; the library object is then built from that description:
+#   * without a tail: a DateTimeZone subclass written here with the public constructors (an interval list),
+#   * with a tail   : the library's own _PrecalculatedDateTimeZone + _StandardDaylightAlternatingMap (private constructors),
+# and each is also wrapped in the caching layer every provider zone gets (_CachedDateTimeZone._for_zone, private).
+
+H_NS = 3600 * NS
+PACK_BASE_DAY = 18720 - 18720 % 32          # first day of the 32-day cache period holding 2021-04: day 18720 = 2021-04-03
+PACK_K = (1, 2, 3, 4, 5, 6)
+PACK_SPACING_DAYS = (2, 5)
+PACK_OFFSETS = ((0, 3600), (-12600, -9000))
+PRECALC_JOINS = ((2005, 1, 20, 8), (2005, 6, 15, 12))      # inside the tail's winter / summer: the tail interval there starts before the join
+PRECALC_STD = (-6 * 3600, 2 * 3600)
+PRECALC_MODES = (1, 0, 2)                                   # wall, utc, standard
+
+
+def user_zone_specs():
+    out = []
+    for k in PACK_K:
+        for place in ("inside", "straddle"):
+            for sp in PACK_SPACING_DAYS:
+                for oa, ob in PACK_OFFSETS:
+                    out.append(("packed", k, place, sp, oa, ob))
+    for j in range(len(PRECALC_JOINS)):
+        for std in PRECALC_STD:
+            for mode in PRECALC_MODES:
+                out.append(("precalc", j, std, mode))
+    return out
+
+
+def user_zone_label(spec):
+    if spec[0] == "packed":
+        return "user-zone:%d-transitions-%s-one-cache-period:%dd-apart:%+d/%+ds" % (spec[1], spec[2], spec[3], spec[4], spec[5])
+    return "user-zone:stored-periods+rules:join-in-%s:std%+ds:%s-time-rules" % (("winter", "summer")[spec[1]], spec[2], ("utc", "wall", "standard")[spec[3]])
+
+
+def user_zone_ref(spec):
+    """the zone in the decoder's dict form"""
+    if spec[0] == "packed":
+        _, k, place, sp, oa, ob = spec
+        if place == "inside":
+            ts = [(PACK_BASE_DAY + 2 + i * sp) * DAY_NS + H_NS for i in range(k)]
+        else:
+            boundary = (PACK_BASE_DAY + 32) * DAY_NS
+            ts = [boundary + ((2 * i - k) * sp * DAY_NS) // 2 + H_NS for i in range(k)]
+        periods = []
+        for i in range(k + 1):
+            wall = oa if i % 2 == 0 else ob
+            periods.append((nzdref.NEG if i == 0 else ts[i - 1], nzdref.POS if i == k else ts[i], "P%d" % i, wall, wall - oa))
+        return {"kind": "precalc", "periods": periods, "tail": None}
+    _, j, std, mode = spec
+    y, m, d, h = PRECALC_JOINS[j]
+    join = days_from_civil(y, m, d) * DAY_NS + h * H_NS
+    t1 = days_from_civil(2000, 3, 10) * DAY_NS + 10 * H_NS
+    t2 = days_from_civil(2000, 9, 15) * DAY_NS + 5 * H_NS
+    third_wall = std + 3600 if j == 0 else std          # differs from the tail's offset at the join
+    periods = [(nzdref.NEG, t1, "First", 3 * 3600, 0), (t1, t2, "Second", 4 * 3600, 3600), (t2, join, "Third", third_wall, 0)]
+    rule = lambda month, dom, hours: {"mode": mode, "dow": 0, "advance": False, "add_day": False, "month": month, "dom": dom,  # noqa: E731
+                                      "tod_ms": hours * 3600 * 1000, "flags": 0}
+    tail = {"std": std, "sname": "Winter", "srule": rule(10, 5, 2), "dname": "Summer", "drule": rule(3, 10, 1), "sav": 3600}
+    return {"kind": "precalc", "periods": periods, "tail": tail}
+
+
+def _list_zone_class():
+    from pyoda_time import DateTimeZone, Offset
+
+    class ListZone(DateTimeZone):
+        """a zone given by an explicit interval list (public base-class constructor only)"""
+
+        def __init__(self, id_, ivs):
+            offs = [iv.wall_offset for iv in ivs]
+            super().__init__(id_, False, min(offs), max(offs))
+            self._ivs = ivs
+            self._starts = [MIN_NS - 1 if not iv.has_start else ins_ns(iv.start) for iv in ivs]
+
+        def get_zone_interval(self, instant):
+            return self._ivs[bisect.bisect_right(self._starts, ins_ns(instant)) - 1]
+
+    return ListZone
+
+
+def build_user_zone(spec):
+    """-> (uncached zone, cached wrapper or None, problems list).  Private constructors are used for the rule tail and the wrapper;
+    when they are missing the affected object is None and the reason is listed."""
+    from pyoda_time import LocalTime, Offset
+    from pyoda_time.time_zones import ZoneInterval
+    ref = user_zone_ref(spec)
+    problems = []
+    ivs = []
+    for (s, e, name, wall, sav) in ref["periods"]:
+        ivs.append(ZoneInterval(name=name, start=None if s == nzdref.NEG else mk_instant(s), end=None if e == nzdref.POS else mk_instant(e),
+                                wall_offset=Offset.from_seconds(wall), savings=Offset.from_seconds(sav)))
+    raw = None
+    if ref["tail"] is None:
+        raw = _list_zone_class()("User", ivs)
+    else:
+        try:
+            from pyoda_time.time_zones._precalculated_date_time_zone import _PrecalculatedDateTimeZone
+            from pyoda_time.time_zones._standard_daylight_alternating_map import _StandardDaylightAlternatingMap
+            from pyoda_time.time_zones._transition_mode import _TransitionMode
+            from pyoda_time.time_zones._zone_recurrence import _ZoneRecurrence
+            from pyoda_time.time_zones._zone_year_offset import _ZoneYearOffset
+            t = ref["tail"]
+
+            def rec(name, sav, r):
+                yo = _ZoneYearOffset._ctor(_TransitionMode(r["mode"]), r["month"], r["dom"], r["dow"], r["advance"],
+                                           LocalTime.from_milliseconds_since_midnight(r["tod_ms"]), r["add_day"])
+                return _ZoneRecurrence(name, Offset.from_seconds(sav), yo, 1960, 2**31 - 1)
+            tail = _StandardDaylightAlternatingMap._ctor(Offset.from_seconds(t["std"]), rec(t["sname"], 0, t["srule"]), rec(t["dname"], t["sav"], t["drule"]))
+            raw = _PrecalculatedDateTimeZone("User", ivs, tail)
+        except (ImportError, AttributeError, TypeError) as ex:
+            problems.append("library constructors for a stored-periods+rules zone unavailable (%s)" % type(ex).__name__)
+    cached = None
+    if raw is not None:
+        try:
+            from pyoda_time.time_zones._cached_date_time_zone import _CachedDateTimeZone
+            cached = _CachedDateTimeZone._for_zone(raw)
+            if cached is raw:
+                cached = None
+                problems.append("_CachedDateTimeZone._for_zone returned the zone itself")
+        except (ImportError, AttributeError, TypeError) as ex:
+            problems.append("caching wrapper factory unavailable (%s)" % type(ex).__name__)
+    return raw, cached, problems
+
+
+def user_zone_windows(spec):
+    ref = user_zone_ref(spec)
+    return plan(ref, "cycle", cycle_years=12)
